@@ -155,8 +155,11 @@ func (f *Formatter) formatComment(comments ast.Comments, sep string, level int) 
 		if !strings.HasPrefix(comments[i].String(), "#FASTLY") {
 			buf.WriteString(f.indent(level))
 		}
-		switch f.conf.CommentStyle {
-		case config.CommentStyleSharp, config.CommentStyleSlash:
+		switch {
+		// #FASTLY macros must keep the sharp
+		case strings.HasPrefix(comments[i].String(), "#FASTLY"):
+			buf.WriteString(comments[i].String())
+		case f.conf.CommentStyle == config.CommentStyleSharp, f.conf.CommentStyle == config.CommentStyleSlash:
 			r := '#' // default as sharp style comment
 			if f.conf.CommentStyle == config.CommentStyleSlash {
 				r = '/'
